@@ -40,10 +40,18 @@ func fieldToUpperSnakeCase(s string) string {
 func validLeadingComment(commentExcludes []string, comment string) bool {
 	for _, line := range strings.Split(comment, "\n") {
 		line = strings.TrimSpace(line)
+		if line == "" {
+			continue
+		}
+		excluded := false
 		for _, commentExclude := range commentExcludes {
-			if line != "" && !strings.HasPrefix(line, commentExclude) {
-				return true
+			if strings.HasPrefix(line, commentExclude) {
+				excluded = true
+				break
 			}
+		}
+		if !excluded {
+			return true
 		}
 	}
 	return false
